@@ -49,9 +49,9 @@ from bounded.common import JOBS, Budget, bitem, chunked, pmap
 PROP = 'C04'
 FUNCTION = ('Grammar.parse(text, memoization=, perlinememos=, prune_memos_on_cut=, trace=, colorize=, parseinfo=) '
             '(core.memo/memoize/cut, engine.rule_call/call, BoundedDict, ConsoleTracer, set_parseinfo)')
-RULE = ('a case is (grammar, input, variant); distinct non-trivial = cases of (grammar, input) pairs in which some rule is '
-        'invoked more than once at the same position under memoization=False (a memo entry can be hit), or a cut is '
-        'executed, or the input is accepted; counted per variant')
+RULE = ('a case is (grammar, input, variant); distinct non-trivial = the cases of the (grammar, input) pairs for which the input '
+        'is accepted, or (grammars without left recursion) some action runs more than once or memoization saves an action '
+        'call, or the grammar contains a cut; counted once per variant')
 
 VARIANTS = (
     ('memoization-off', {'memoization': False}),
@@ -80,6 +80,7 @@ MEMO_GRAMMARS = (
     ('more-memos-than-cache', "start = {a} 'b' $ | {a} 'c' $ | {a b_} $ ;\na = 'a' ;\nb_ = 'b' | 'c' ;", 'abc '),
     ('failure-memo', "start = p q | p r | r ;\np = 'a' ;\nq = 'b' 'b' ;\nr = 'b' | 'a' 'c' ;", 'abc'),
     ('lookahead-memo', "start = &a a 'b' | !b a 'c' | b ;\na = 'a' ;\nb = 'a' 'a' | 'b' ;", 'abc'),
+    ('token-rule-blanks', "start = 'a' W 'b' $ | 'a' w 'b' 'b' $ ;\nW = /b*/ ;\nw = /b*/ ;", 'ab '),
     ('multi-line', "start = {l} $ ;\nl = w ';' | w '.' ;\nw = /a+/ ;", 'a;.\n'),
 )
 
